@@ -1,11 +1,11 @@
 from pyvc import runner
-from contracts import messages, codecs, packets, partial
+from contracts import messages, codecs, packets, partial, compression
 
 PID = 'C20'
 
 
 def items():
-    return messages.scenarios() + [s for s in packets.scenarios() + partial.scenarios() if PID in s.props]
+    return messages.scenarios() + [s for s in packets.scenarios() + partial.scenarios() if PID in s.props] + compression.scenarios()
 
 
 def run(tier='quick', seed=0, only=None):
@@ -16,4 +16,4 @@ def run(tier='quick', seed=0, only=None):
         bounded = [_b.component, codecs.partial_lengths_bounded]     # imported messages may use partial body lengths (4.2.2.4)
     return runner.run_property(PID, its, bounded=bounded, tier=tier, seed=seed, level='proof',
                                trusted_base=['pyvc symbolic executor', 'z3 5.1 / cvc5 1.0.3'],
-                               assumptions=['compression externals (zlib/bz2) are inverse pairs (checked natively, bounded)'])
+                               assumptions=['compression externals (zlib/bz2): contracts stated in contracts/compression.py (framing of zlib.compress; zlib.decompress takes every RFC 1951 stream exactly with wbits=-15); that they are inverse pairs is checked natively, bounded'])
